@@ -295,6 +295,10 @@ def data_cases(ctx):
     for k in (1, 2, 3):
         shapes.append((f"Many {coq_list(['SrcRV false'] * k)}", lambda k=k: [mk(i) for i in range(k)]))
         shapes.append((f"Many {coq_list(['SrcRV false'] * k)}", lambda k=k: {f"s{i}": mk(i) for i in range(k)}))
+        if k > 1:
+            # string keys of different lengths where one is a prefix of a later one (sources must stay distinct)
+            shapes.append((f"Many {coq_list(['SrcRV false'] * k)}", lambda k=k: {["s2", "s21", "s212"][i]: mk(i) for i in range(k)}))
+            shapes.append((f"Many {coq_list(['SrcRV false'] * k)}", lambda k=k: {["apogee", "apogee-dr17", "ap"][i]: mk(i) for i in range(k)}))
     shapes.append(("Many [SrcRV false; SrcRV true]", lambda: [mk(0), cov]))
     shapes.append(("Many [SrcRV true; SrcRV false]", lambda: [cov, mk(0)]))
     shapes.append(("Many [SrcRV false; SrcOther]", lambda: [mk(0), "not data"]))
